@@ -114,6 +114,10 @@ def run(ctx):
     # limits are enforced only under `assert_limits`: the flag must reach every component unchanged
     from .common import flag_provenance
     flag_provenance(ctx, 'C09-6.flags', 'assert_limits', floor=5)
+    # the limits a step is held to are the ones published IN that step: auxiliary load, then limits, then the solve
+    from .common import step_protocol
+    for root in ('LocomotiveSimulation::solve_step', 'ConsistSimulation::solve_step', 'SetSpeedTrainSim::solve_step', 'SpeedLimitTrainSim::solve_step'):
+        step_protocol(ctx, 'C09-2.published', root, [('set_pwr_aux', 'set_cur_pwr_max_out'), ('set_cur_pwr_max_out', 'solve_energy_consumption')])
     # ------------------------------------------------------------------ FuelConverter
     for b in inv.writers('FuelConverterState', 'pwr_brake'):
         if is_raw_setter(b): continue
